@@ -68,6 +68,8 @@ func valueOf(v string, f uint64, rem uint64) uint64 {
 		return ^uint64(0) - 1
 	case "2^63+f":
 		return f | 1<<63 // the genuine value with the top bit set
+	case "2^20":
+		return 1 << 20
 	case "2^28":
 		return 1 << 28
 	case "2^28+1":
